@@ -41,6 +41,8 @@ constexpr auto shift_right(BidiIt first, BidiIt last, typename etl::iterator_tra
     for (; src != first; --dest, (void)--src) {
         *dest = etl::move(*src);
     }
+    *dest = etl::move(*src);
+    --dest;
 
     // Elements outside the new range should be left in a valid but unspecified state.
     // If the value type has a default constructor we do a little cleanup.
